@@ -207,6 +207,32 @@ def actions_get_the_tables(repo: Repo, interp) -> None:
                                     f"are written against a per-thread view of the table, a form the rules do not describe")
 
 
+
+def _part_of_window(kt):
+    from .. import decoders
+    """'' when the term is a complete copy of the window, a description when it is recognisably a part of it (a slice that
+    leaves out an end, a comprehension with a condition), None for anything else."""
+    if kt.op == "call" and kt.a[0].op == "builtin" and kt.a[0].a[0] in ("list", "tuple") and len(kt.a[1]) == 1 and not kt.a[2]:
+        return _part_of_window(kt.a[1][0])
+    if kt == decoders.EVENTS:
+        return ""
+    if kt.op == "slice" and len(kt.a) == 3 and kt.a[0] == decoders.EVENTS:
+        lo, hi = kt.a[1], kt.a[2]
+        whole_lo = lo == sym.NONE or lo == const(0)
+        whole_hi = hi == sym.NONE
+        if whole_lo and whole_hi:
+            return ""
+        if all(x == sym.NONE or (x.op == "const" and isinstance(x.a[0], int)) for x in (lo, hi)):
+            return f"the slice {sym.pretty(kt)} of the window"
+        return None
+    if kt.op == "comp" and kt.a[0] in ("list", "gen") and len(kt.a[2]) == 1:
+        elem, it, conds = kt.a[2][0]
+        if it == decoders.EVENTS and kt.a[1] == elem:
+            if not conds:
+                return ""
+            return f"only the records where {sym.pretty(conds[0])[:60]}"
+    return None
+
 def check(repo: Repo, run: Run) -> None:
     interp = sym.Interp(repo)
     tp = repo.cls("traces_parser", "TracesParser")
@@ -664,6 +690,45 @@ def check(repo: Repo, run: Run) -> None:
                f"popped, the dispatcher drops None, so the END of an open START yields no trace", nontrivial=bool(lost),
                line=lost[0].lineno if lost else ent.func.lineno,
                witness="START ... END of this code on one thread, with nested records that make that condition true")
+    # ---- K12 the records a trace carries are its window: "contains every same-thread, same-domain event between START and END"
+    # is observed through the trace's record list.  A decoder hands the window on as it is, or collects it record by record
+    # without leaving any out (it may stop at the record that closes a text).
+    n_k12 = 0
+    for ent in D.entries():
+        d = D.decode(ent)
+        if d.ret is None or d.ret.op != "new":
+            continue
+        kt = dict(d.ret.a[1]).get("ktraces")
+        if kt is None or kt == decoders.EVENTS:
+            n_k12 += kt is not None
+            continue
+        collected = [e_ for e_ in d.rec.effects if e_.kind == "mut-call" and e_.key == "append" and e_.args
+                     and e_.args[0].op == "elem" and e_.args[0].a[0] == decoders.EVENTS]
+        part = _part_of_window(kt)
+        if part is not None and not collected:
+            n_k12 += 1
+            run.ob("K12", ent.module.name, ent.func_name, f"{ent.key}: every record of the window is kept", part == "",
+                   "" if part == "" else
+                   f"the decoder of {ent.key} gives its trace {part} as record list: the trace no longer holds every same-thread "
+                   f"event between its START and END", line=ent.func.lineno, nontrivial=part != "",
+                   witness="a window of two or more records")
+            continue
+        if not collected:
+            run.floor_failures.append(f"C04/K12: the record list of the trace {ent.key} is {sym.pretty(kt)[:60]}: neither the window "
+                                      f"nor a list collected from it record by record")
+            continue
+        n_k12 += 1
+        lid = collected[0].loops[-1] if collected[0].loops else None
+        entry = d.rec.loops[lid].entry_pc if lid in d.rec.loops else ()
+        filtered = [e_ for e_ in collected if [c_ for c_ in e_.pc[len(entry):]]]
+        run.ob("K12", ent.module.name, ent.func_name, f"{ent.key}: every record of the window it walks is kept", not filtered,
+               "" if not filtered else
+               f"the decoder of {ent.key} keeps a record of its window only when "
+               f"{' and '.join((sym.pretty(c_)[:60] if p_ else 'not ' + sym.pretty(c_)[:60]) for c_, p_ in filtered[0].pc[len(entry):][:2])}: "
+               f"the trace's record list no longer holds every same-thread event between its START and END",
+               line=filtered[0].lineno if filtered else ent.func.lineno, nontrivial=bool(filtered),
+               witness="another record of the same thread and domain between the START and the END of this one")
+    run.floor("K12", "decoders whose record list is the window (or collected from it)", n_k12, 300)
     for mname, mnode in M.items():
         if mname in (start_m, end_m, all_m, "__init__"):
             continue
